@@ -795,6 +795,13 @@ static void spec_rect_mink(Rng& g, int rounds) {
     for (int diff = 0; diff < 2; ++diff) for (int closedp = 0; closedp < 2; ++closedp) {
       Path64 pattern = with_z(g, g.chance(10) ? Path64{} : rand_poly(g, (int)g.range(1, 5), 30));
       Path64 path = with_z(g, g.chance(10) ? Path64{} : rand_poly(g, (int)g.range(1, 6), R));
+      // coordinates that no double holds (odd values beyond 2^53): the single-path reader must hand them over unchanged
+      if (!path.empty() && g.chance(12)) {
+        int64_t T = g.pick(std::vector<int64_t>{(1LL << 53) + 1, -((1LL << 53) + 1001), (1LL << 56) + 3, -((1LL << 58) + 5)});
+        bool flip = g.coin();
+        for (auto& v : path) { v.x += T; v.y += flip ? -T : T; }
+        stat("minkowski.path_beyond_2^53");
+      }
       int64_t* cpat = g.chance(5) && pattern.empty() ? nullptr : mk_cpath<int64_t>(pattern);
       int64_t* cpth = g.chance(5) && path.empty() ? nullptr : mk_cpath<int64_t>(path);
       const char* fn = diff ? "MinkowskiDiff64" : "MinkowskiSum64";
